@@ -31,7 +31,7 @@ class TaskM:
         "pm", "tid", "atask", "req", "call", "started", "body_done", "how", "cancels_seen", "cancel_req",
         "cancel_req_before_start", "ccb_n", "ecb_n", "ccb_running", "ecb_running", "ccb_done", "ecb_done",
         "reg", "forgotten", "may_forget", "created_op", "events", "swallowed", "exc", "start_seq", "end_seq",
-        "stray_ok", "deliv_expected", "pending", "reg_seen", "faults", "disturbed",
+        "stray_ok", "deliv_expected", "pending", "reg_seen", "faults", "disturbed", "in_aflush",
     )
 
     def __init__(self, pm: "PoolM", tid: int, created_op: int) -> None:
@@ -63,6 +63,7 @@ class TaskM:
         self.reg_seen = False
         self.faults: list = []
         self.disturbed = False
+        self.in_aflush = False
 
     def request_cancel(self) -> None:
         """The model knows a cancellation was just requested for this task."""
